@@ -46,6 +46,15 @@ func vocab() []string {
 			" ", "  ", "\t", "\n", "\r\n", "\r", "\f", "\v", "\u0085", "\u2028", "\u2029", "\u200e", "\u00a0", "\ufeff",
 			// brackets
 			"(", ")", "[", "]", "{", "}", "<", ">", "()", "[]", "{}", "<>", "{[}]", "([)]", "}{",
+			// one representative per Unicode general category and encoded length that a lexer's character classes
+			// (unicode.IsDigit / IsLetter / IsSpace ...) may treat specially, alone and glued to ASCII
+			"\u0663", "\u0967", "\uff11", "\U0001d7ce", "\u00b2", "\u00bd", "\u2167", "\u3007", // Nd (2,3,3,4 bytes), No, No, Nl, Nl
+			"\u0663x", "x\u0663", "1\u0663", "\u06631", "\u0663.5", ".\u0663", "0x\u0663", "\uff11e5", "-\u0967", "\U0001d7ce\U0001d7cf", "1e\u0663", "\u0663\n",
+			"\u00aa", "\u02b0", "\u01c5", "\u05d0", "\U00010400", "\U0001f600", // Lo, Lm, Lt, Lo (RTL), Lu (4 bytes), So
+			"\u203f", "\uff3f", "\u2040", "a\u203fb", "\uff3fx", // Pc: connector punctuation
+			"\u0903", "\u20dd", "\u200d", "\u00ad", "\u2060", "\ue000", "\U000e0001", "\ufffd", "\uffff", // Mc, Me, Cf, Cf, Cf, Co, Cf, replacement, noncharacter
+			"\u1680", "\u2003", "\u3000", "\u202f", "\u205f", // Zs of several lengths
+			"\u201c", "\u201d", "\u2018", "\uff02", "\u00ab", // quotation marks that are not quotes
 			// junk
 			"\x00", "\x01", "\x7f", "\\", "`", "@", "#", "$", "~", "\xff", "\xc0\x80", "\xed\xa0\x80", "\xf4\x90\x80\x80", "\xe2\x82", "\xfe\xff", "\xff\xfe",
 		)
